@@ -1,3 +1,4 @@
+import Pocket.Spec.AbsStore
 import Pocket.Lemmas.FromSourceKind
 import Pocket.Lemmas.StoreRead
 import Pocket.Lemmas.Vanish
@@ -96,5 +97,33 @@ theorem ephemeral_never_live (s : Store) (e : EventRec) (he : isEphemeral e.kind
 
 /-- "ephemeral" is what `Kind::is_ephemeral` says today -/
 theorem ephemeral_from_source (k : Nat) : Src.kindIsEphemeral k = isEphemeral k := (kind_predicates_from_source k).2.1
+
+/-! ### the property read on the specification (`Spec/AbsStore.lean`) -/
+
+/-- C18 read on the specification: `remove_event` takes away exactly the events with that id, `vanish` exactly the key's own
+events and the kind-1059 events whose `p` tag names it (lower-case hex, first value); markers, log and everything else untouched -/
+theorem spec_remove_vanish_exact (a : Abs) (id pk : Bytes) (x : EventRec) :
+    (x ∈ (absRemove a id).live ↔ x ∈ a.live ∧ x.id ≠ id) ∧
+    (x ∈ (absVanish a pk).live ↔ x ∈ a.live ∧ x.pubkey ≠ pk ∧ ¬(x.kind = 1059 ∧ tagsMatch x.tags KEY_P (hexOf pk) = true)) ∧
+    (absRemove a id).delIds = a.delIds ∧ (absRemove a id).delAddrs = a.delAddrs ∧ (absRemove a id).log = a.log ∧
+    (absVanish a pk).delIds = a.delIds ∧ (absVanish a pk).delAddrs = a.delAddrs ∧ (absVanish a pk).log = a.log := by
+  refine ⟨?_, ?_, rfl, rfl, rfl, rfl, rfl, rfl⟩
+  · simp [absRemove, List.mem_filter]
+  · simp only [absVanish, List.mem_filter, Bool.and_eq_true, Bool.not_eq_true', beq_eq_false_iff_ne, ne_eq, Bool.and_eq_false_iff]
+    constructor
+    · rintro ⟨h1, h2, h3⟩
+      refine ⟨h1, h2, ?_⟩
+      rintro ⟨hk, ht⟩
+      rcases h3 with h | h
+      · exact h hk
+      · rw [ht] at h; cases h
+    · rintro ⟨h1, h2, h3⟩
+      refine ⟨h1, h2, ?_⟩
+      by_cases hk : x.kind = 1059
+      · right
+        cases ht : tagsMatch x.tags KEY_P (hexOf pk)
+        · rfl
+        · exact absurd ⟨hk, ht⟩ h3
+      · exact Or.inl hk
 
 end Pocket.C18
